@@ -40,12 +40,17 @@ Definition limit_close (l : lim) : lim :=
 (* Fuel that always suffices for a read loop over a limit reader. *)
 Definition limit_fuel (l : lim) : nat := S (S (script_fuel (script (lsrc l)))).
 
-(* Consume to the end, then Close: (bytes, final error, closes before Close, closes after). *)
-Definition limit_run (v : variant) (n : Z) (s : list rd) (c : consumer)
+(* Consume to the end, then call Close [k] times (a caller may Close again, e.g. a deferred Close
+   after an explicit one): (bytes, final error, closes before the first Close, closes after the
+   last).  The consumer [c] is the sequence of buffer sizes of the Read calls that reach the
+   wrapper: limitReadCloser has no method besides Read and Close ([implements] below), so
+   io.ReadAll, io.Copy, io.CopyBuffer, io.CopyN and a destination's ReadFrom all reduce to Read
+   loops, each with its own sizes. *)
+Definition limit_run (v : variant) (n : Z) (s : list rd) (c : consumer) (k : nat)
   : list N * option err * nat * nat :=
   let l0 := lim_new n s in
   let '(bs, e, l1) := consume (limit_read v) (limit_fuel l0) c l0 [] in
-  (bs, e, closes (lsrc l1), closes (lsrc (limit_close l1))).
+  (bs, e, closes (lsrc l1), closes (lsrc (Nat.iter k limit_close l1))).
 
 (* ------------------------------------------------------------------------------------- *)
 (* MultiReaderCloser                                                                       *)
@@ -86,33 +91,37 @@ Fixpoint multi_read_loop (want : nat) (rs : list src) (gone : list src) : list N
 Definition multi_read (want : nat) (m : multi) : list N * err * multi :=
   multi_read_loop want (mreaders m) (mgone m).
 
-(* io.CopyBuffer(w, r, buf) with a 32 KiB buffer and a writer that never fails: all the data of
-   the source up to EOF (nil error, here EEOF = "clean") or the source's error. *)
+(* io.CopyBuffer(w, r, buf) with a writer that never fails: all the data of the source up to EOF
+   (nil error, here EEOF = "clean") or the source's error.  [c] = the buffer sizes of the Read
+   calls on the source: the 32 KiB buffer of WriteTo ([copy_consumer]) when the destination is a
+   plain Writer; whatever the destination's ReadFrom chooses when it is an io.ReaderFrom
+   (io.CopyBuffer hands the source to it). *)
 Definition copy_buf : nat := Z.to_nat 32768.
+Definition copy_consumer : consumer := {| csizes := []; cdflt := copy_buf |}.
 
-Definition copy_all (r : reader) : list N * option err * reader :=
-  consume read (S (script_fuel (script r))) {| csizes := []; cdflt := copy_buf |} r [].
+Definition copy_all (c : consumer) (r : reader) : list N * option err * reader :=
+  consume read (S (script_fuel (script r))) c r [].
 
 (* func (mr *MultiReaderCloser) writeToWithBuffer.
    Original: never closes a source; Fixed: closes each fully copied source that is a Closer. *)
-Fixpoint multi_write_to_loop (v : variant) (rs : list src) (gone : list src) (acc : list N)
-  : list N * err * multi :=
+Fixpoint multi_write_to_loop (v : variant) (c : consumer) (rs : list src) (gone : list src)
+         (acc : list N) : list N * err * multi :=
   match rs with
   | [] => (acc, EEOF, {| mreaders := []; mgone := gone |})
   | r :: rest =>
-      let '(bs, e, rd') := copy_all (sreader r) in
+      let '(bs, e, rd') := copy_all c (sreader r) in
       let r' := {| sreader := rd'; closable := closable r |} in
       match e with
       | Some EEOF =>
           let r'' := match v with Original => r' | Fixed => close_src r' end in
-          multi_write_to_loop v rest (gone ++ [r'']) (acc ++ bs)
+          multi_write_to_loop v c rest (gone ++ [r'']) (acc ++ bs)
       | Some e' => (acc ++ bs, e', {| mreaders := r' :: rest; mgone := gone |})
       | None => (acc ++ bs, EFail, {| mreaders := r' :: rest; mgone := gone |})
       end
   end.
 
-Definition multi_write_to (v : variant) (m : multi) : list N * err * multi :=
-  multi_write_to_loop v (mreaders m) (mgone m) [].
+Definition multi_write_to (v : variant) (c : consumer) (m : multi) : list N * err * multi :=
+  multi_write_to_loop v c (mreaders m) (mgone m) [].
 
 Definition multi_close (m : multi) : multi :=
   {| mreaders := []; mgone := mgone m ++ map close_src (mreaders m) |}.
@@ -123,16 +132,19 @@ Definition multi_fuel (m : multi) : nat :=
 Definition close_counts (m : multi) : list nat :=
   map (fun s => closes (sreader s)) (mgone m ++ mreaders m).
 
-(* mode: [Some c] = Read loop with consumer c; [None] = WriteTo (io.Copy). *)
-Definition multi_run (v : variant) (srcs : list (list rd * bool)) (mode : option consumer)
+(* mode: [ViaRead c] = Read loop with consumer c; [ViaWriteTo c] = one WriteTo call (io.Copy,
+   io.CopyBuffer), every source copied with the buffer sizes [c].  Then [k] calls of Close. *)
+Inductive mmode := ViaRead (c : consumer) | ViaWriteTo (c : consumer).
+
+Definition multi_run (v : variant) (srcs : list (list rd * bool)) (mode : mmode) (k : nat)
   : list N * option err * list nat * list nat :=
   let m0 := multi_new srcs in
   let '(bs, e, m1) :=
     match mode with
-    | Some c => consume multi_read (multi_fuel m0) c m0 []
-    | None => let '(bs, e, m1) := multi_write_to v m0 in (bs, Some e, m1)
+    | ViaRead c => consume multi_read (multi_fuel m0) c m0 []
+    | ViaWriteTo c => let '(bs, e, m1) := multi_write_to v c m0 in (bs, Some e, m1)
     end in
-  (bs, e, close_counts m1, close_counts (multi_close m1)).
+  (bs, e, close_counts m1, close_counts (Nat.iter k multi_close m1)).
 
 (* ------------------------------------------------------------------------------------- *)
 (* TeeReadCloser                                                                           *)
@@ -170,17 +182,41 @@ Definition tee_read (want : nat) (t : tee) : list N * err * tee :=
         else ([], EWriter, {| tr := r'; tw := w'; topen := true; teof := eof' |})
     end.
 
+(* func (t *TeeReadCloser) Close(): closes r and w and sets both to nil ([topen = false]); a
+   second Close finds nil interfaces, whose io.Closer assertions fail, and closes nothing. *)
 Definition tee_close (t : tee) : tee :=
-  {| tr := close_reader (tr t);
-     tw := {| wbuf := wbuf (tw t); wbudget := wbudget (tw t); wcloses := S (wcloses (tw t)) |};
-     topen := false; teof := teof t |}.
+  if topen t then
+    {| tr := close_reader (tr t);
+       tw := {| wbuf := wbuf (tw t); wbudget := wbudget (tw t); wcloses := S (wcloses (tw t)) |};
+       topen := false; teof := teof t |}
+  else t.
 
 Definition tee_fuel (t : tee) : nat := S (S (script_fuel (script (tr t)))).
 
-(* (bytes delivered, final error, bytes written, source closes, writer closes) after Close *)
-Definition tee_run (s : list rd) (budget : option nat) (c : consumer)
+(* (bytes delivered, final error, bytes written, source closes, writer closes) after [k] calls
+   of Close *)
+Definition tee_run (s : list rd) (budget : option nat) (c : consumer) (k : nat)
   : list N * option err * list N * nat * nat :=
   let t0 := tee_new s budget in
   let '(bs, e, t1) := consume tee_read (tee_fuel t0) c t0 [] in
-  let t2 := tee_close t1 in
+  let t2 := Nat.iter k tee_close t1 in
   (bs, e, wbuf (tw t2), closes (tr t2), wcloses (tw t2)).
+
+(* ------------------------------------------------------------------------------------- *)
+(* Method sets                                                                             *)
+
+(* Which of the io package's optional interfaces each wrapper type implements.  io.Copy and
+   friends pick their path by these (WriterTo on the source first, then ReaderFrom on the
+   destination), so the models above are models of the whole type only as long as this table is
+   the method set of the Go type: the harness probes every entry by interface assertion. *)
+Inductive wrapper := WLimit | WMulti | WTee.
+
+Inductive iface :=
+| IWriterTo | IReaderFrom | IByteReader | IByteScanner | IRuneReader | IRuneScanner
+| ISeeker | IReaderAt | IWriter | IStringWriter | IByteWriter | IWriterAt.
+
+Definition implements (w : wrapper) (i : iface) : bool :=
+  match w, i with
+  | WMulti, IWriterTo => true
+  | _, _ => false
+  end.
